@@ -132,7 +132,7 @@ def a3(prog, ctx, getters, setters):
     ma = ModAnalysis(prog, indirect_targets=indirect_table(prog))
     for n in getters + setters:
         f = prog.fn(n)
-        target = "find_key" if n in getters else "setKeyValue"
+        target = "find_key" if (n in getters or n.endswith("ValueDef")) else "setKeyValue"
         c = query.unique_call(f, target)
         tf = prog.fn(target)
         gi = tf.param_names().index("group")
@@ -751,11 +751,35 @@ def a9(prog, ctx, getters, setters):
                      "map accepts" % target, key="refusal:%s" % n, path=cfg.describe_path(wp) if wp else None)
 
 
+def a10_set_path_keeps_text(prog, ctx):
+    """A10: what a setter stores is the whole text it produced: no fixed buffer on the set path cuts it (= C14.B1/B2 restricted to the
+    functions between the public setters and the entry)."""
+    from sa.report import Ctx as _Ctx
+    from rules import C14 as _C14
+    sub = _Ctx(ctx.prop, ctx.tier, prog)
+    try:
+        _C14.judge(prog, sub, False)
+    except Inconclusive as e:
+        ctx.inconclusive("A10", "the set path keeps the whole text", "", str(e))
+        return
+    n = 0
+    for ob in sub.obs:
+        fn0 = ob.instance.split(" ")[0].split(":")[0]
+        if re.match(r"^(set\w*ValueNum|setKeyValue|new_key|key_file_append|setKey|setGroup|econf_set\w+Value)$", fn0):
+            n += 1
+            ob.rule = "A10"
+            ctx.obs.append(ob)
+    if n == 0:
+        ctx.ok("A10", "the set path keeps the whole text", "", "no fixed-size buffer between the setters and the entry")
+
+
 def run(prog, ctx):
     getters, setters, defs = accessors(prog)
     a1(prog, ctx, getters + setters + defs + ["econf_getKeys", "econf_getGroups", "econf_getExtValue"])
     a2(prog, ctx, setters)
-    a3(prog, ctx, getters, setters)
+    # a defaulted getter that looks the key up itself (instead of delegating to the plain getter) is bound by the same naming rules
+    direct_defs = [d for d in defs if prog.fn(d).calls("find_key")]
+    a3(prog, ctx, getters + direct_defs, setters)
     a4(prog, ctx)
     a4_no_entry_passed_over(prog, ctx)
     a5(prog, ctx)
@@ -763,4 +787,5 @@ def run(prog, ctx):
     a7(prog, ctx)
     a8(prog, ctx, getters, setters, defs)
     a9(prog, ctx, getters, setters)
+    a10_set_path_keeps_text(prog, ctx)
     ctx.floor("C11 public accessors", len(getters + setters + defs) + 3, 25)
